@@ -6,8 +6,10 @@ open Lean RV RV.Traffic
 
 def expOf : String → Exp
   | "fresh" => .fresh | "elapsed" => .elapsed | _ => .none
+/-- outputs: an elapsed expectation is reported like none (observationally equal: `runGrace_elapsed_none`;
+    the grace package's background cleaner removes elapsed entries at any time) -/
 def expStr : Exp → String
-  | .fresh => "fresh" | .elapsed => "elapsed" | .none => "none"
+  | .fresh => "fresh" | .elapsed => "none" | .none => "none"
 def ageOf : String → Age
   | "fresh" => .fresh | "elapsed" => .elapsed | _ => .none
 
